@@ -104,6 +104,13 @@ func (rn *runner) judge(d *dataset, qi int, q *querySpec, outs []outcome) {
 		c.Eval(1)
 		rn.noteCell(o.cell)
 		if o.err != "" {
+			if strings.Contains(o.err, "Client.Timeout") || strings.Contains(o.err, "context deadline exceeded") {
+				// no answer within the HTTP client's 120 s: a wall-clock observation, never a verdict
+				c.Inconclusive("query-gave-no-answer-within-120s", 1)
+				c.Distinct("query-timeout-cell", o.cell.String())
+				fmt.Printf("INCONCLUSIVE C08 dataset %d query %d: no answer within 120 s in cell %s: %s\n", d.Index, qi, o.cell, q.text(o.cell.Desc))
+				continue
+			}
 			addFail(classifyError(q, o.cell, o.err), "error", o.err, o.cell, nil, nil)
 			continue
 		}
@@ -393,7 +400,9 @@ func classifyMeta(q *querySpec, a, b cell, ref, got *answer, mm *mismatch) strin
 	if a.BTM && len(got.Series) == 0 && len(ref.Series) > 0 {
 		return sigBTMEmpty
 	}
-	if q.Interval > 0 && (a.Layout == "mixed" && a.Inner < 1024 || b.Layout == "mixed" && b.Inner < 1024) {
+	var hasTag0, hasField0 bool
+	q.Where.kinds(&hasTag0, &hasField0)
+	if q.Agg && (q.Interval > 0 || hasField0) && (a.Layout == "mixed" && a.Inner < 1024 || b.Layout == "mixed" && b.Inner < 1024) {
 		return sigMixedChunk
 	}
 	var hasTag, hasField bool
